@@ -52,6 +52,12 @@ def translate(repo):
     cls = find_class(tree, 'BoboGenEventIDUnique')
     fn = find_func(cls, 'generate')
     frag = ast.get_source_segment(src, fn)
+    # the prefix the identifiers carry is the constructor's argument itself (the model's `fmt urn`; prefix_disjoint is about it)
+    init = find_func(cls, '__init__')
+    urn_assigns = [ast.unparse(st.value) for st in ast.walk(init) if isinstance(st, (ast.Assign, ast.AnnAssign)) and st.value is not None
+                   and ast.unparse(st.targets[0] if isinstance(st, ast.Assign) else st.target) == 'self._urn']
+    if urn_assigns != ['urn']:
+        raise TieBroken("__init__: the prefix is not stored as given (`self._urn = urn`): " + ' ; '.join(urn_assigns)[:120])
     body = strip_doc(fn.body)
     if len(body) != 1 or not isinstance(body[0], ast.With):
         raise TieBroken("generate: body is not a single `with self._lock:` block")
